@@ -454,6 +454,15 @@ def run_mdot(case, ctx):
                     continue
                 ctx.nontriv([case, keep_dim, copy, api])
                 raw1d = False
+                if copy:
+                    # copy=True: the factorised input must still represent the tensor it represented (a caller goes on using it)
+                    try:
+                        tin = R4.cp_dense(np.asarray(t[0]), [np.asarray(f) for f in t[1]]) if is_cp else R4.tucker_dense(np.asarray(t[0]), [np.asarray(f) for f in t[1]])
+                        same = tin.shape == dense0.shape and np.array_equal(tin, dense0)
+                    except Exception:
+                        same = False
+                    if not same:
+                        ctx.violation(f"{site}/input-tensor-changed-although-copy=True/{icls}", f"{desc} {opts}: after the call the input decomposition no longer represents its tensor")
 
                 def sig(aspect):
                     return f"{site}/vector-keep_dim/1d-factor" if (vk and raw1d) else f"{site}/{aspect}/{icls}"
